@@ -196,3 +196,102 @@ def c03_symbolic(k: int, tag: int, iv: int, bv: bool, sv: str) -> bool:
         return True          # CrossHair's float(int) has no OverflowError: ints beyond binary64 range are catalogue entries + C10/E2
     value = None if tag == 0 else (bv if tag == 1 else (iv if tag == 2 else sv))
     return verdict(check(doc, b, pts[k], value, False))
+
+
+# ---- objects whose fields are completed partly one after another and partly concurrently (public options coerce_parent_concurrently /
+# @Resolver(parent_concurrently=...)): an adversarial value at a default-resolved field, placed in the data the default resolver reads ----------
+import copy  # noqa: E402
+from tartiflette import Resolver as _R  # noqa: E402
+ENG_PS = world.make_engine("c03_ps", 0, "plain", coerce_parent_concurrently=False)       # explicit @Resolver fields stay concurrent, default-resolved ones become sequential
+for _f in ("Query.nn", "Mid.n", "Leaf.s"):
+    _R(_f, schema_name="c03_ov", parent_concurrently=False)(world.universal)
+ENG_OV = world.make_engine("c03_ov", 0, "univ")                                           # the reverse mix: a few fields sequential, the rest concurrent
+DOC_M = "{ n nn color mids { n leaf { n s b } } mid { n leaves { s n } } a { n id color } }"
+AST_M = gqlfront.parse(DOC_M)
+for _e in (ENG_PS, ENG_OV):
+    env.run(_e.execute(DOC_M, initial_value=DATA))
+SITES_M = [("n",), ("nn",), ("color",), ("mid", "n"), ("mids", 0, "leaf", "n"), ("mids", 1, "leaf", "s"), ("mid", "leaves", 0, "s"), ("a", "n"), ("a", "id")]
+BASE_M = {}
+for _nm, _e in (("ps", ENG_PS), ("ov", ENG_OV)):
+    world.reset()
+    BASE_M[_nm] = env.run(_e.execute(DOC_M, initial_value=DATA))["data"]
+
+
+def _unshare(x):
+    """copy without keeping aliases (DATA re-uses MID / LEAF at several positions: a value placed at one position must not show at another)"""
+    if isinstance(x, dict):
+        return {k: _unshare(v) for k, v in x.items()}
+    if isinstance(x, list):
+        return [_unshare(v) for v in x]
+    return x
+
+
+def _put(data, path, value):
+    d = _unshare(data)
+    cur = d
+    for kk in path[:-1]:
+        cur = cur[kk]
+    cur[path[-1]] = value
+    return d
+
+
+@obligation(tier="quick", timeout=240, shards=[{"eng": e, "site": s} for e in ("ps", "ov") for s in range(len(SITES_M))],
+            samples=[{"tag": 0, "iv": 0, "bv": True, "sv": "x"}, {"tag": 2, "iv": 2 ** 31, "bv": False, "sv": ""}, {"tag": 4, "iv": 1, "bv": False, "sv": "z"}],
+            symbolic=["iv: int (unbounded)", "bv: bool", "sv: str"],
+            selectors=["tag: None / bool / int / str / a non-numeric object", "shard: engine (sequential default-resolved + concurrent explicit fields, or the reverse), position of the value"],
+            bounds="9 positions x 2 mixed sequential/concurrent engines",
+            note="an adversarial value under an object whose fields complete partly sequentially and partly concurrently: no raise, conforms (every value under its own response key), nulls explained")
+def c03_mixed(tag: int, iv: int, bv: bool, sv: str) -> bool:
+    """
+    post: _
+    """
+    sh = shard()
+    eng = ENG_PS if sh["eng"] == "ps" else ENG_OV
+    p = SITES_M[sh["site"]]
+    tag = pick(tag, 5)
+    leafname = p[-1]
+    numeric = leafname in ("n", "nn")
+    if tag == 3 and numeric:
+        sv = "not-a-number"           # float(<symbolic str>) realises: one representative
+    if tag == 2 and not numeric:
+        iv = 7 if iv > 0 else -2 ** 40
+    value = None if tag == 0 else (bv if tag == 1 else (iv if tag == 2 else (sv if tag == 3 else {"x": 1})))
+    data = _put(DATA, p, value)
+    world.reset()
+    ok, resp = safe(lambda: env.run(eng.execute(DOC_M, initial_value=data)))
+    observe(resp)
+    if not ok or not isinstance(resp, dict) or "data" not in resp:
+        return verdict(False)
+    out = resp["data"]
+    op = AST_M["definitions"][0]
+    if not conforms(MODELS[0], AST_M, op, {}, out):
+        observe("does not conform")
+        return verdict(False)
+    errs = resp.get("errors")
+    if errs is not None and (not isinstance(errs, list) or not errs):
+        return verdict(False)
+    epaths = [tuple(e["path"]) for e in errs or [] if isinstance(e.get("path"), list)]
+    if len(epaths) != len(errs or []):
+        return verdict(False)
+    for ep in epaths:
+        if not is_prefix(p, ep) and not is_prefix(ep, p):
+            observe("error not attributable to the value", ep)
+            return verdict(False)
+    base = BASE_M[sh["eng"]]
+    for q in null_positions(out):
+        try:
+            was_null = lookup(base, q) is None
+        except (KeyError, IndexError, TypeError):
+            was_null = False
+        if was_null and not is_prefix(q, p):
+            continue
+        if not (any(is_prefix(q, ep) for ep in epaths) or (q == p and value is None)):
+            observe("unexplained null", q)
+            return verdict(False)
+    # every other position keeps the value it has without the adversarial input
+    for q in SITES_M:
+        if q != p and not any(is_prefix(n_, q) for n_ in null_positions(out)):
+            if lookup(out, q) != lookup(base, q):
+                observe("value moved", q)
+                return verdict(False)
+    return verdict(True)
